@@ -23,18 +23,41 @@ type cfgT struct {
 	epoch int64
 	nb    uint8
 	low   bool
+	via   *setupT // nil: the three globals are set by the verif hook; else by the public Setup(options...)
 }
 
+func mkcfgCoq(epoch int64, nb uint8, low bool) string {
+	return fmt.Sprintf("(mkcfg %s %d%%Z %s)", vh.CoqZ(epoch), nb, vh.CoqBool(low))
+}
 func (c cfgT) coq() string {
-	return fmt.Sprintf("(mkcfg %s %d%%Z %s)", vh.CoqZ(c.epoch), c.nb, vh.CoqBool(c.low))
+	if c.via != nil {
+		// the case carries the start globals and the option list; Coq computes the configuration with setup_from
+		return fmt.Sprintf("(setup_from %s %s)", mkcfgCoq(c.via.sEpoch, c.via.sNb, c.via.sLow), c.via.optsCoq())
+	}
+	return mkcfgCoq(c.epoch, c.nb, c.low)
 }
 func (c cfgT) shift() uint { return uint(c.nb) + 12 }
 func (c cfgT) width() uint { return 63 - c.shift() }
 func (c cfgT) tag() string { return fmt.Sprintf("nb%d-low%v", c.nb, c.low) }
 func (c cfgT) desc() interface{} {
-	return map[string]interface{}{"epoch_ms": c.epoch, "node_bits": c.nb, "node_at_lowest": c.low}
+	d := map[string]interface{}{"epoch_ms": c.epoch, "node_bits": c.nb, "node_at_lowest": c.low}
+	if c.via != nil {
+		d["configured_by"] = "Setup(" + c.via.optsDesc() + ") on globals " + fmt.Sprintf("epoch=%d nodeBits=%d nodeAtLowest=%v", c.via.sEpoch, c.via.sNb, c.via.sLow)
+	} else {
+		d["configured_by"] = "VerifSetConfig"
+	}
+	return d
 }
-func (c cfgT) rep() string { return fmt.Sprintf("%d,%d,%v", c.epoch, c.nb, c.low) }
+func (c cfgT) rep() string {
+	r := fmt.Sprintf("%d,%d,%v", c.epoch, c.nb, c.low)
+	if c.via != nil {
+		r += fmt.Sprintf(",S,%d,%d,%v", c.via.sEpoch, c.via.sNb, c.via.sLow)
+		for _, o := range c.via.opts {
+			r += "," + o.rep()
+		}
+	}
+	return r
+}
 func (c cfgT) valid() bool {
 	return (c.nb == 8 || c.nb == 9 || c.nb == 10) && c.epoch >= y2000 && c.epoch < 1<<62
 }
@@ -63,8 +86,17 @@ const (
 var shanghai *time.Location
 
 func withCfg(c cfgT, f func()) {
-	restore := snowflake.VerifSetConfig(c.epoch, c.nb, c.low)
+	if c.via == nil {
+		restore := snowflake.VerifSetConfig(c.epoch, c.nb, c.low)
+		defer restore()
+		f()
+		return
+	}
+	// the hook only puts the globals into the start state (and restores them afterwards); the configuration
+	// under test is what the public Setup makes of the options
+	restore := snowflake.VerifSetConfig(c.via.sEpoch, c.via.sNb, c.via.sLow)
 	defer restore()
+	snowflake.Setup(c.via.goOpts()...)
 	f()
 }
 
@@ -333,7 +365,25 @@ func parseCfg(s string) cfgT {
 	p := strings.Split(s, ",")
 	ep, _ := strconv.ParseInt(p[0], 10, 64)
 	nb, _ := strconv.ParseUint(p[1], 10, 8)
-	return cfgT{ep, uint8(nb), p[2] == "true"}
+	c := cfgT{ep, uint8(nb), p[2] == "true", nil}
+	if len(p) > 3 && p[3] == "S" {
+		se, _ := strconv.ParseInt(p[4], 10, 64)
+		sn, _ := strconv.ParseUint(p[5], 10, 8)
+		v := &setupT{sEpoch: se, sNb: uint8(sn), sLow: p[6] == "true"}
+		for _, o := range p[7:] {
+			switch o[0] {
+			case 'E':
+				v.opts = append(v.opts, optT{kind: 'E', t: parseTm(o[1:])})
+			case 'M':
+				m, _ := strconv.ParseUint(o[1:], 10, 8)
+				v.opts = append(v.opts, optT{kind: 'M', m: uint8(m)})
+			case 'L':
+				v.opts = append(v.opts, optT{kind: 'L'})
+			}
+		}
+		c.via = v
+	}
+	return c
 }
 func parseTm(s string) tmT {
 	p := strings.Split(s, ":")
@@ -373,6 +423,8 @@ func replay(e *vh.Env, arg string) {
 		emitBetween(e, parseCfg(p[1]), parseTm(p[2]), parseTm(p[3]), parseIds(p[4]), "replay")
 	case "zone":
 		emitZone(e, pi(p[1]))
+	case "setup":
+		emitSetup(e, parseCfg(p[1]), "replay")
 	case "held":
 		heldBatch(e, parseCfg(p[1]), parseIds(p[2]), "replay")
 	case "par":
